@@ -460,6 +460,7 @@ class FnTranslator:
         self.nloops = 0
         self.nbind = 0
         self.used = set()
+        self.memo_late = []        # memoised module functions called at / after the entry of a loop (program order)
 
     def fresh(self, base):
         self.nbind += 1
@@ -873,6 +874,7 @@ class FnTranslator:
                     carried.append((nm, 'c_%s_%d' % (_ident(nm), lp.n), ty))
         lp.carried = carried
         env_head = dict(env)
+        env_head['$loop'] = (None, ERASED)          # from here on (body, later iterations, code after the loop)
         env_head.pop(tname, None)
         for nm in poisoned:
             env_head[nm] = (None, ERASED)
@@ -1033,6 +1035,8 @@ class FnTranslator:
             if tt not in (SEGS, SEGSOWN) or to is None:
                 raise Problem('comprehension over a %s: %s' % (tt, u(n)))
             self.used.add('quote_path_segment')
+            if '$loop' in env:
+                self.memo_late.append('quote_path_segment')
             return A('rmap_r', [A('quote_segment_r', [K('path_segment_safe')]), to]), RES(SEGS)
         if isinstance(n, ast.Dict):
             return self.dict_lit(n, env), TDICT
@@ -1153,6 +1157,8 @@ class FnTranslator:
             if ty != TEXT or obj is None:
                 raise Problem('traversal_path_info(..) of a %s: %s' % (ty, u(n)))
             self.used.add(f)
+            if '$loop' in env:
+                self.memo_late.append(f)
             return A('gen_traversal_path_info', [obj]), RES(SEGS)
         if f == 'lineage' and len(n.args) == 1:
             obj, ty = self.expr(n.args[0], env)
@@ -1165,6 +1171,8 @@ class FnTranslator:
             if ty != TEXT or obj is None:
                 raise Problem('%s(..) of a %s: %s' % (f, ty, u(n)))
             self.used.add(f)
+            if '$loop' in env:
+                self.memo_late.append(f)
             g, rty = MODULE_FUNCS[f]
             return A(g, [obj]), rty
         raise Problem('call outside the table: %s' % u(n))
@@ -1283,6 +1291,7 @@ def find_def(tree, qual):
 def translate_source(text):
     """-> (coq text of the generated definitions, problems, summary)"""
     problems, out, summary = [], [], {}
+    late = {}
     fb = load_fallback()
     try:
         tree = ast.parse(text)
@@ -1304,6 +1313,7 @@ def translate_source(text):
                 try:
                     body = render(tr.translate(), 2)
                     used |= tr.used
+                    late[gen] = sorted(set(tr.memo_late))
                 except Problem as e:
                     problems.append('translator: %s: %s' % (spec['qual'], e))
                 except RecursionError:
@@ -1324,6 +1334,16 @@ def translate_source(text):
                '  | Ok (%s) => Ok (gen_call_tail %s root)\n'
                '  | Exc e_ => Exc e_\n  | Unsupported => Unsupported\n  end.\n'
                % (', '.join(nm for nm, _ in PRE_OUT), ' '.join(nm for nm, _ in PRE_OUT)))
+    # ORDER fact, derived by the translator itself while it walks __call__ in program order: every call of a memoised
+    # module function (split_path_info, decode_path_info, traversal_path_info; quote_path_segment's dictionary) is
+    # evaluated BEFORE the walk loop is entered -- none inside the loop (where the resources' __getitem__ run and may
+    # re-enter traversal) and none after it.  false when such a call exists or when the tail could not be translated.
+    ok = late.get('gen_call_tail') == [] and late.get('gen_call_preamble') is not None
+    summary['memo_calls_precede_walk'] = ok if ok else 'NO: %s' % (late.get('gen_call_tail'),)
+    out.append('Definition memo_calls_precede_walk : bool := %s.\n' % ('true' if ok else 'false'))
+    if not ok and late.get('gen_call_tail'):
+        problems.append('translator: ResourceTreeTraverser.__call__ calls memoised function(s) %s inside / after the walk loop: '
+                        'the re-entrancy theorem assumes every memoised call precedes the item lookups' % late['gen_call_tail'])
     if tree is not None:
         check_globals(tree, used, problems)
     return '\n'.join(out), problems, summary
